@@ -511,7 +511,7 @@ def _atheris_cases(tier):
         return []
     from vlib import fuzz
 
-    runs = fuzz.scaled(1000000)
+    runs = fuzz.scaled(600000)
     return [{"target": "conv", "corpus": "empty", "runs": runs, "seed": fuzz.env_seed()}]
 
 
@@ -523,7 +523,7 @@ def _run_atheris(case):
 
 def checks(tier):
     return [
-        Check("conv", _run_conv, strategy=_conv_case(), examples={"quick": 20000, "thorough": 16 * 200000}, shards={"quick": 4, "thorough": 16}),
+        Check("conv", _run_conv, strategy=_conv_case(), examples={"quick": 20000, "thorough": 16 * 150000}, shards={"quick": 4, "thorough": 16}),
         Check("now", _run_now, cases=_now_cases, shards={"quick": 1, "thorough": 1}, exhaustive=True),
         Check("atheris", _run_atheris, cases=_atheris_cases, shards={"quick": 1, "thorough": 16}),
     ]
